@@ -70,6 +70,10 @@ def worldFS (old : Option Inode) : FS :=
     { inodes := [dirInode, dirInode, dirInode, dirInode, n],
       names := [(destF, 4), (["R", "dst"], 0), (["R", "tmp"], 1), (["X"], 2), (["R", "tmp2"], 3)], fds := [] }
 
+/-- The destination directory `R/dst` does not exist yet (nested fstree key). -/
+def worldNested : FS :=
+  { inodes := [dirInode, dirInode, dirInode], names := [(["R"], 0), (["R", "tmp"], 1), (["X"], 2)], fds := [] }
+
 def worldOld (old : Option Inode) : Obs := old.map fun n => (nodeOf n n.data, [])
 
 def exOldFile : Inode := { kind := .file, mode := 0o644, data := [⟨0, 0, 100⟩], target := "", clean := true }
